@@ -8,14 +8,20 @@
      inlining the helper; a member lost in such a refactoring is the only thing reported;
   3. tie (translator, every run): tools/translate_serial.py re-reads the read/write/serialize bodies and
      the data members of every serializable class from the CURRENT tree and emits one small Coq file
-     per class (coq/gen/c18/C18_<X>.v) with the obligations rw_X / cover_X / stale_X / nrw_X; each file is
+     per class (coq/gen/c18/C18_<X>.v) with the obligations rw_X / cover_X / stale_X / nrw_X / rebuild_X (derived state:
+     every transient member is re-established by read() at or after the last streaming statement, or exempt with a
+     reason; the source-level reading is confirmed on clang's AST; key transient-not-rebuilt:<Class>::<member>); each file is
      compiled on its own, so one broken class does not hide the others; coq/gen/C18NestedAll.v then plugs the nested
      descriptions together (member classes first) and instantiates the nested round-trip theorem per class, and
      coq/gen/C18DataTie.v ties the regenerated description of Data/LabeledData/Shape to the modelled layout;
   4. tie of the vector-stream model (C18Text.v, extracted, ocaml/c18_driver.ml): the words / bytes Boost's text / binary
      archive contains for consecutive vectors (harness class VectorStream) equal the model's stream;
   5. monitor (always) and search (when an obligation of a class fails): the C++ round-trip harness
-     harness/c18_*.cpp, text and binary archives, fresh instance differing in all streamed state.
+     harness/c18_*.cpp, text and binary archives, fresh instance differing in all streamed state; every model / kernel
+     case also compares ALL advertised behaviours (harness/c18_behave.h: eval batch / with state / single, and where the
+     flags advertise them weightedParameterDerivative, weightedInputDerivative, weightedDerivatives on a fixed probe batch
+     and coefficient matrix) of the object restored into a default-constructed and into a differently structured /
+     parameterised object, before any setter is called; key roundtrip:<Class>:<behaviour>.
 """
 import os, sys, re, json, shutil
 from concurrent.futures import ThreadPoolExecutor
@@ -273,6 +279,11 @@ def explain(r, failed):
                 msgs.append(("cover", "member %s (%s, declared in %s) is neither streamed by write nor listed as transient" % (m, r["member_types"].get(m, "?"), r["member_decl"].get(m, "?")), m))
         elif th.startswith("stale_"):
             msgs.append(("stale", "transient table entry no longer matches the class (member gone or now streamed)", "transient"))
+        elif th.startswith("rebuild_"):
+            for m, d in sorted(r.get("rebuild", {}).items()):
+                if d["status"] == "untouched":
+                    msgs.append(("rebuild", "transient member %s (%s, declared in %s; transient because: %s) is derived state that read() does not re-establish: %s" % (
+                        m, r["member_types"].get(m, "?"), r["member_decl"].get(m, "?"), dict(r["transient"]).get(m, "?"), d["how"]), m))
         elif th.startswith("nrw_"):
             if any(t.startswith("rw_") for t in failed): continue        # the same mismatch, already explained by rw_X
             msgs.append(("rw", "nested read/write descriptions differ (member-class references)", "nested"))
@@ -323,6 +334,9 @@ def run_selftest(ck, tmpd):
     # independent reading: clang's AST of the same snippets must give the same member sequences (helpers followed)
     tus = {c: where[c] for c in expect if "translator" not in expect[c]}
     ast = TS.ast_crosscheck(sdir, results, repo_includes() + ["-I" + sdir], os.path.join(tmpd, "selftest_ast"), jobs=4, tus=tus)
+    # derived state: clang's reading of the rebuild obligations must agree with the source-level one on the same snippets
+    for cname, m, st, touched, msg in TS.ast_rebuild_check(sdir, results, repo_includes() + ["-I" + sdir], os.path.join(tmpd, "selftest_ast_rb"), jobs=4, tus=dict(where)):
+        ast.append(("%s::%s(rebuild)" % (cname, m), None if touched is None else ((st == "rebuilt") == touched), "source-level: %s; clang: %s" % (st, msg)))
     return rep, ast, results
 
 
@@ -415,7 +429,8 @@ def main():
     ck.trusted = DEFAULT_TRUSTED + [
         "tools/translate_serial.py: source-level reading of read/write/serialize bodies and of class-body declarations (comments/strings blanked, brace matching; member-function helpers that are handed the archive are inlined, anything else that is handed the archive is a failing obligation); what it ignores is listed in each generated file",
         "ocaml/c18_driver.ml: element codecs of the vector-stream model (C printf %.17e for text, IEEE bytes for binary); Boost's archive prefix and object-id records are stripped / accounted for in tools/c18.py (stream_tie)",
-        "the hand-kept TRANSIENT / ACCESSORS / EXCLUDED tables in tools/translate_serial.py",
+        "the hand-kept TRANSIENT / ACCESSORS / EXCLUDED / REBUILD_NOT_REQUIRED tables in tools/translate_serial.py (every entry with its reason is copied into the evidence file)",
+        "rebuild obligation: 'read() refers to the member, or calls a non-const member function that does, at or after the last streaming statement' is taken as 're-establishes it'; that the recomputed value is the right one is what the harness compares (all advertised behaviours)",
         "modelled not verified: Boost.Serialization (record structure, versions, pointer tracking), remora storage serialization"]
     ck.assumptions = ["behaviour of an object is a function of its non-transient data members and of the structure the user supplies on construction (kernel/layer pointers, objective function, rng)",
                       "the fresh instance is legitimately constructed with the same user-supplied structure (KernelExpansion kernel, ConcatenatedModel layers, optimizer init on the same objective)"]
@@ -449,12 +464,13 @@ def main():
     nob = 0
     for r in results:
         ok, failed, lg = status.get(r["uid"], (False, ["<not compiled>"], ""))
-        nob += 3
+        nob += 4
         if not ok:
             failing.setdefault(r["name"], []).extend(explain(r, failed) if failed != ["<coqc error>"] else [("coqc", lg[-400:], "coqc")])
     ck.notes["classes_translated"] = [r["uid"] for r in results]
     ck.notes["classes_excluded"] = TS.EXCLUDED
     ck.notes["transient_table"] = {"%s::%s" % k: v for k, v in TS.TRANSIENT.items()}
+    ck.notes["rebuild_not_required_table"] = {"%s::%s" % k: v for k, v in TS.REBUILD_NOT_REQUIRED.items()}
     ck.notes["class_obligations"] = {"total": nob, "failing_classes": sorted(failing)}
     log("[C18] translator: %d classes, %d with failing obligations: %s" % (len(results), len(failing), ", ".join(sorted(failing))))
 
@@ -466,6 +482,30 @@ def main():
               not dis, "; ".join("%s: %s" % x for x in dis)[:1500])
     ck.notes["ast_crosscheck"] = {"agree": [c for c, ok, _ in rep if ok], "disagree": dis, "skipped": skp}
     if skp: log("[C18] AST cross-check skipped for: " + "; ".join("%s (%s)" % x for x in skp)[:600])
+
+    # ---- derived state: the rebuild obligations read from clang's AST (authoritative); the source-level reading feeds rebuild_X
+    dead_rb = TS.dead_rebuild_entries(TS.ALL_CLASSES[0])
+    ck.oblige("rebuild allow-list (REBUILD_NOT_REQUIRED) has no dead entries", not dead_rb, "exempts nothing: " + ", ".join(dead_rb))
+    rbrep = TS.ast_rebuild_check(REPO, results, repo_includes(), os.path.join(tmpd, "ast_rebuild"), jobs=4)
+    rb_dis = []
+    for cname, m, st, touched, msg in rbrep:
+        if touched is None:
+            log("[C18] AST rebuild check skipped for %s::%s (%s)" % (cname, m, msg[:200])); continue
+        if (st == "rebuilt") != touched:
+            rb_dis.append("%s::%s: source-level reading says %s, clang: %s" % (cname, m, st, msg))
+        if not touched:
+            ms = failing.setdefault(cname, [])
+            old = [x for x in ms if x[0] == "rebuild" and x[2] == m]
+            if old:
+                ms[ms.index(old[0])] = ("rebuild", old[0][1] + " | confirmed on clang's AST", m)
+            else:
+                r0 = byname[cname][0]
+                ms.append(("rebuild", "transient member %s (declared in %s; transient because: %s) is derived state that read() does not re-establish: %s" % (
+                    m, r0["member_decl"].get(m, "?"), dict(r0["transient"]).get(m, "?"), msg), m))
+    ck.oblige("derived state: clang's AST confirms the source-level reading of %d rebuild obligations (%s)" % (
+        sum(1 for x in rbrep if x[3] is not None), ", ".join("%s::%s" % (x[0], x[1]) for x in rbrep)), not rb_dis, "; ".join(rb_dis)[:1500])
+    ck.notes["rebuild_obligations"] = {"%s::%s" % (r["uid"], m): d for r in results for m, d in sorted(r.get("rebuild", {}).items())}
+    ck.notes["rebuild_ast"] = [{"class": c, "member": m, "source_level": st, "ast_touched": t, "detail": msg} for c, m, st, t, msg in rbrep]
 
     # ---- monitor: round-trip harness
     srcs = [os.path.join(ROOT, "harness", f) for f in sorted(os.listdir(os.path.join(ROOT, "harness"))) if re.match(r"c18_.*\.cpp$", f)]
@@ -538,24 +578,37 @@ def main():
         return set(HARNESS_TO_CLASSES.get(base, [base]))
     # monitor failures: one violation per class when the class has broken obligations (the differences are
     # attributed to them), otherwise one per (class, observable)
-    def obs_of(h):
-        if h["status"] != "DIFF": return h["status"]
-        return re.sub(r"\[[^\]]*\]", "", h["rest"].split(":")[0].strip())
+    def canon(ob):
+        # generic behaviour comparison of harness/c18_behave.h: B/<target>/<behaviour>[.detail] -> B:<behaviour>
+        m = re.match(r"B/\w+/([\w-]+)", ob)
+        return "B:" + m.group(1) if m else ob
+    def obs_all(h):
+        """the differing observables a result line names: the first one, and the further generic behaviours (also=...)"""
+        if h["status"] != "DIFF": return [h["status"]]
+        out = [canon(re.sub(r"\[[^\]]*\]", "", h["rest"].split(":")[0].strip()))]
+        m = re.search(r" also=(\S+)", h["rest"])
+        for x in (m.group(1).split("|") if m else []):
+            if x.startswith("B/") and canon(x) not in out: out.append(canon(x))
+        return out
     groups = {}
     for h in bad:
-        related = [(c, m) for c in sorted(covered_by(h["cls"])) for m in failing.get(c, [])]
-        gk = (h["cls"], "") if related else (h["cls"], obs_of(h))
-        groups.setdefault(gk, []).append(h)
+        related = [(c, m) for c in sorted(covered_by(h["cls"])) for m in failing.get(c, []) if m[0] != "rebuild"]
+        for ob in obs_all(h):
+            gk = (h["cls"], ob) if (ob.startswith("B:") or not related) else (h["cls"], "")
+            if h not in groups.setdefault(gk, []): groups[gk].append(h)
+    registered = set(); unregistered = set()      # harness lines whose difference is / is not a registered known finding
     def obl_key(c, m):
-        return {"rw": "read/write mismatch ", "cover": "missing ", "stale": "stale ", "translator": "translator ", "coqc": "coqc "}[m[0]] + m[2]
+        return {"rw": "read/write mismatch ", "cover": "missing ", "stale": "stale ", "translator": "translator ", "coqc": "coqc ", "rebuild": "transient-not-rebuilt "}[m[0]] + m[2]
     for (cls, ob), hs in sorted(groups.items()):
-        related = [(c, m) for c in sorted(covered_by(cls)) for m in failing.get(c, [])]
+        related = [(c, m) for c in sorted(covered_by(cls)) for m in failing.get(c, []) if m[0] != "rebuild" or ob.startswith("B:")]
         # distinct variants first, so that the replay shows the breadth
         seen = set(); pick = []
         for h in hs:
             if (h["var"], h["fmt"]) not in seen and len(pick) < 8:
                 seen.add((h["var"], h["fmt"])); pick.append(h)
-        if related:
+        if ob.startswith("B:"):
+            key = "roundtrip:%s:%s" % (cls, ob[2:])
+        elif related:
             key = "serial:%s:%s" % (cls, "; ".join(sorted(set((c + " " if c != cls else "") + obl_key(c, m) for c, m in related))))
         else:
             key = "serial:%s:behaviour %s" % (cls, ob)
@@ -567,18 +620,43 @@ def main():
               "replay_cmd": "python3 tools/c18.py --replay %s" % cf}
         h = pick[0]
         what = "round trip of %s changes behaviour in %d cases (variants %s): e.g. %s -> %s %s" % (
-            cls, len(hs), ",".join(sorted(set(x["var"] for x in hs))[:6]), h["case"], h["status"], h["rest"][:160])
+            cls, len(hs), ",".join(sorted(set(x["var"] for x in hs))[:6]), h["case"], h["status"], h["rest"][:260])
+        if ob.startswith("B:"):
+            what = ("advertised behaviour '%s' of the restored %s differs from the original before any setter is called (targets %s) | " % (
+                ob[2:], cls, ",".join(sorted(set(re.findall(r"B/(\w+)/" + re.escape(ob[2:]), " ".join(x["rest"] for x in hs))))))) + what
         if related:
             what += " | broken obligation(s): " + "; ".join("%s: %s" % (c, m[1]) for c, m in related[:4])
         else:
             what += " | no translator obligation is broken for this class (state outside the streamed members, e.g. derived flags)"
+        (registered if ck.match_known(key) is not None else unregistered).update(id(x) for x in hs)
         ck.violation(key, rp, what)
         for c in covered_by(cls):
-            if failing.get(c): reported.add(c)
+            if [m for m in failing.get(c, []) if m[0] != "rebuild"] and (related or not ob.startswith("B:")): reported.add(c)
     # failing obligations without a behavioural difference from the harness
     for cname, msgs in sorted(failing.items()):
-        if cname in reported: continue
         for kind, msg, member in msgs:
+            if kind == "rebuild":
+                # derived state that read() does not re-establish: always reported on its own, with the harness cases of the
+                # class whose advertised behaviours differ as the failing input (when there are any)
+                ev = [h for h in bad if cname in covered_by(h["cls"]) and any(o.startswith("B:") for o in obs_all(h))]
+                key = "transient-not-rebuilt:%s::%s" % (cname, member)
+                rp = {"obligation": "rebuild_%s" % cname, "class": cname, "member": member, "detail": msg,
+                      "generated_file": "coq/gen/c18/C18_%s.v" % cname,
+                      "expected": "read() re-establishes every transient (derived) member from the streamed members, or the member is exempt with a reason (tools/translate_serial.py REBUILD_NOT_REQUIRED)"}
+                if ev:
+                    seen = set(); pick = []
+                    for h in ev:
+                        if (h["var"], h["fmt"]) not in seen and len(pick) < 8:
+                            seen.add((h["var"], h["fmt"])); pick.append(h)
+                    cf = ck.write_replay("case_%s_rebuild_%s.txt" % (re.sub(r"\W", "_", cname), re.sub(r"\W", "_", member)), "\n".join(x["case"] for x in pick) + "\n")
+                    rp.update({"case_file": cf, "cases": [x["case"] for x in pick], "observed": [x["case"] + " " + x["status"] + " " + x["rest"] for x in pick],
+                               "replay_cmd": "python3 tools/c18.py --replay %s" % cf})
+                    msg += " | observed: %s %s %s" % (pick[0]["case"], pick[0]["status"], pick[0]["rest"][:200])
+                else:
+                    rp["note"] = "the round-trip harness found no behavioural difference" if any(cname in covered_by(h["cls"]) for h in hres) else "no harness case exercises this class"
+                ck.violation(key, rp, "obligation rebuild_%s no longer checks: %s" % (cname, msg), no_input=not ev)
+                continue
+            if cname in reported: continue
             key = "serial:%s:%s %s" % (cname, {"rw": "read/write mismatch", "cover": "missing", "stale": "stale", "translator": "translator", "coqc": "coqc"}[kind], member)
             has_cases = any(cname in covered_by(h["cls"]) for h in hres)
             ck.violation(key, {"obligation": "%s_%s" % (kind, cname), "class": cname, "detail": msg,
@@ -586,13 +664,16 @@ def main():
                                "harness_cases_run_for_class": sum(1 for h in hres if cname in covered_by(h["cls"])),
                                "note": "the round-trip harness found no behavioural difference" if has_cases else "no harness case exercises this class"},
                          "obligation %s_%s no longer checks: %s" % (kind, cname, msg), no_input=True)
-    ck.oblige("per-class obligations rw_X/cover_X/stale_X (%d classes)" % len(results), not failing,
+    ck.oblige("per-class obligations rw_X/cover_X/stale_X/rebuild_X (%d classes)" % len(results), not failing,
               "failing: " + "; ".join("%s[%s]" % (c, ",".join(sorted(set(m[0] + ":" + m[2] for m in ms)))) for c, ms in sorted(failing.items())))
+    # a case all of whose differences are registered known findings does not fail the monitor obligation
+    bad = [h for h in bad if id(h) in unregistered or id(h) not in registered]
     ck.oblige("round-trip monitor: %d cases" % len(hres), not bad, "%d non-OK" % len(bad))
 
     ck.cov["evaluations"] = len(hres)
     ck.cov["distinct_nontrivial"] = len(set((h["cls"], h["var"], h["fmt"], h["seed"]) for h in hres if h["status"] != "SKIP"))
     ck.cov["rule"] = ("every (class, variant) the harness lists x {text, binary} x seeds; the fresh instance differs from the original in all streamed state; "
+                      "models / kernels: all advertised behaviours (eval, derivatives) of the object restored into a default-constructed and into a differently structured object; "
                       "non-trivial = every case (each constructs a non-default object); distinct = distinct (class, variant, format, seed)")
     ck.cov["samples"] = cases[:3]
     ck.cov["traces_validated_against_impl"] = len(results)
